@@ -181,6 +181,11 @@ def gen_catalogue(seed):
             cfg["classes"] = []
             cfg["procs"] = t.pick(["none", "record"], "procs")
         cfgs.append(cfg)
+    for gr in (False, True):
+        cfgs.append({"template": "items", "memoization": False, "autokwd": False, "ignore_case": False,
+                     "auto_init_attributes": True, "textx_tools_support": False, "use_regexp_group": False,
+                     "skipws": True, "ws": None, "global_repository": gr, "provider": "plaingr-rel", "classes": [],
+                     "procs": "none", "model_processor": False})
     for name in ("shapes1", "shapes2"):
         cfgs.append({"template": name, "memoization": False, "autokwd": False, "ignore_case": False,
                      "auto_init_attributes": True, "textx_tools_support": False, "use_regexp_group": False,
@@ -263,7 +268,17 @@ def gen_catalogue(seed):
         {"kind": "sp-shared-extra", "path": "/sim/w3sp/proj1/second.m", "text": 'import "extra.m" use u : e'},
         {"kind": "sp-missing", "path": "/sim/w3sp/proj2/missing.m", "text": 'import "nolib.m" use u : x'},
     ]
+    # two projects: the files a relative GlobalRepo pattern reaches depend on the project root of *this* load
+    lib["/sim/w3p/alpha/lib/x.m"] = "def weight = 3 def common = 1"
+    lib["/sim/w3p/beta/lib/x.m"] = "def height = 4 def common = 2"
+    multi_gr = [
+        {"kind": "gr-alpha", "path": "/sim/w3p/alpha/main.m", "text": "use u : weight , common", "params": {"project_root": "/sim/w3p/alpha"}},
+        {"kind": "gr-beta", "path": "/sim/w3p/beta/main.m", "text": "use u : height , common", "params": {"project_root": "/sim/w3p/beta"}},
+        {"kind": "gr-beta-dangling", "path": "/sim/w3p/beta/other.m", "text": "use u : weight", "params": {"project_root": "/sim/w3p/beta"}},
+        {"kind": "gr-no-root", "path": "/sim/w3p/alpha/noroot.m", "text": "use u : weight"},
+    ]
     return {"cfgs": cfgs, "items": items_inputs, "mods": mods_inputs, "multi": multi, "multi_sp": multi_sp, "lib": lib,
+            "multi_gr": multi_gr,
             "shapes": [{"kind": "shapes", "text": x} for x in SHAPES_INPUTS]}
 
 
@@ -303,6 +318,9 @@ def build_metamodel(cfg):
         mm.register_scope_providers({"*.*": sp.FQNImportURI()})
     elif prov == "plainuri-sp":
         mm.register_scope_providers({"*.*": sp.PlainNameImportURI(search_path=["/sim/w3sp/shared"])})
+    elif prov == "plaingr-rel":
+        # a relative pattern: looked up under the project root every load names for itself
+        mm.register_scope_providers({"*.*": sp.PlainNameGlobalRepo("lib/*.m")})
     procs = {}
     if cfg["procs"] in ("record", "replace", "boom"):
         procs["Use"] = lambda o: None
@@ -341,6 +359,8 @@ def build_metamodel(cfg):
 def input_list(cat, cfg):
     if cfg["template"] in SHAPES_GRAMMARS:
         return cat["shapes"]
+    if cfg.get("provider") == "plaingr-rel":
+        return cat["multi_gr"]
     if cfg.get("provider") == "plainuri-sp":
         return cat["multi_sp"]
     if cfg.get("provider") in ("plainuri", "fqnuri"):
@@ -354,9 +374,10 @@ def do_load(mm, text, mode, j, inp=None):
         for p, t_ in CAT["lib"].items():
             SIMFS.files[p] = t_
         SIMFS.files[inp["path"]] = text
+        params = inp.get("params") or {}
         if mode == "file":
-            return mm.model_from_file(inp["path"])
-        return mm.model_from_str(text, file_name=inp["path"])
+            return mm.model_from_file(inp["path"], **params)
+        return mm.model_from_str(text, file_name=inp["path"], **params)
     if mode == "file":
         path = f"/sim/w3/in{j}.m"
         SIMFS.files[path] = text
